@@ -1088,6 +1088,20 @@ def run_flow(ctx: Ctx, cases, terms):
             run_flow_case(ctx, {"kind": "flow", "body": body, "policy": policy, "delay": delay, "owned": owned,
                                 "live": live2, "dev": desc}, cases, terms)
             ctx.count(f"flow-dev:{desc['kind']}")
+            # the same drift on an object that ALSO lacks the parent's owner reference (adopted object, or
+            # ownerReferences rewritten along with the drift): still exactly the policy's action
+            if owned and di % 2 == 0:
+                l5 = copy.deepcopy(live2)
+                if isinstance(l5.get("metadata"), dict):
+                    if di % 4 == 0:
+                        l5["metadata"].pop(OWNERS, None)
+                    else:
+                        l5["metadata"][OWNERS] = [{"uid": "someone-else", "kind": "Other", "name": "o"}]
+                    pol = ["recreate", "never", "patch", "default"][(bi + di // 2) % 4]
+                    run_flow_case(ctx, {"kind": "flow", "body": body, "policy": pol, "delay": delay, "owned": True,
+                                        "live": l5, "dev": dict(desc, owner="missing" if di % 4 == 0 else "other")},
+                                  cases, terms)
+                    ctx.count(f"flow-dev-noowner:{pol}")
         # owner reference lost (not a C05 deviation; exercises the owner branch of the tail model)
         if owned:
             l3 = copy.deepcopy(live)
